@@ -7,11 +7,11 @@ META = {
         "The real puresnmp.transport.send_udp and SNMPClientProtocol run on a real asyncio event loop whose "
         "selector advances a virtual clock instead of blocking and whose datagram endpoints are scripted. The fault "
         "schedule -- per attempt one of {reply in time, no reply, reply after the timeout, two replies, ICMP/OS "
-        "error, connection lost} -- the retry budget and the timeout are solver variables; CrossHair/z3 enumerate "
+        "error, connection lost, cancelled by the caller} -- the retry budget and the timeout are solver variables; CrossHair/z3 enumerate "
         "every schedule within the bound. Assertions are read from the transports' log: number and payload of "
         "sendto calls, virtual time of the return / Timeout, opened vs. closed transports after control is back in "
         "the event loop."),
-    "bounds": ["retries 1..4", "timeout in {1, 2, 6} s", "6 outcomes per attempt, every sequence up to the retry budget"],
+    "bounds": ["retries 1..4", "timeout in {1, 2, 6} s", "7 outcomes per attempt (the six network outcomes and cancellation of the call by its caller), every sequence up to the retry budget"],
     "outside": ["real loop-back sockets and file-descriptor counts (kernel behaviour)", "replies delayed across attempts onto a later socket (each attempt has its own socket)"],
     "stubs": ["event loop = asyncio.SelectorEventLoop with a virtual-time selector; create_datagram_endpoint -> scripted transports"],
     "assumptions": ["a closed or aborted socket delivers nothing further; close()/abort() lead to connection_lost(None) on the next loop iteration, as in asyncio's selector transports"],
@@ -32,8 +32,8 @@ def make_harness(max_retries):
             timeout = TIMEOUTS[choose(timeout_sel, 0, len(TIMEOUTS) - 1)]
             script = []
             for k, o in enumerate((o0, o1, o2, o3)[:retries]):
-                script.append(choose(o, 0, 5))
-                if script[-1] in (vloop.REPLY, vloop.TWO_REPLIES):
+                script.append(choose(o, 0, 6))
+                if script[-1] in (vloop.REPLY, vloop.TWO_REPLIES, vloop.CANCEL):
                     break   # later attempts are never made: their outcomes are irrelevant
             loop = vloop.VLoop(script, float(timeout))
             packet = b"\x30\x03request-payload"
@@ -42,8 +42,11 @@ def make_harness(max_retries):
             try:
                 try:
                     coro = send_udp(Endpoint(ipaddress.ip_address("192.0.2.7"), 161), packet, timeout=timeout, retries=retries)
-                    result = loop.run_until_complete(coro)
+                    loop.caller_task = loop.create_task(coro)
+                    result = loop.run_until_complete(loop.caller_task)
                     outcome = ("returned", result)
+                except asyncio.CancelledError as exc:
+                    outcome = ("cancelled", exc)
                 except Timeout as exc:
                     outcome = ("timeout", exc)
                 except vloop.Deadlock as exc:
@@ -61,7 +64,7 @@ def make_harness(max_retries):
             sends = [e for e in loop.log if e[0] == "sendto"]
             attempts = len(loop.transports)
             first_ok = next((i for i, o in enumerate(script) if o in (vloop.REPLY, vloop.TWO_REPLIES)), None)
-            first_err = next((i for i, o in enumerate(script) if o in (vloop.ICMP_ERROR, vloop.CONN_LOST)), None)
+            first_err = next((i for i, o in enumerate(script) if o in (vloop.ICMP_ERROR, vloop.CONN_LOST, vloop.CANCEL)), None)
             names = [vloop.OUTCOME_NAMES[o] for o in script]
             if outcome[0] == "deadlock":
                 problem = "the call never finishes (event loop idle): %s" % names
@@ -111,8 +114,8 @@ def jobs(tier):
              "puresnmp.transport:SNMPClientProtocol.datagram_received", "puresnmp.transport:SNMPClientProtocol.get_data",
              "puresnmp.transport:SNMPClientProtocol.error_received", "puresnmp.transport:SNMPClientProtocol.connection_lost"]
     out = []
-    for first in range(6):
+    for first in range(7):
         out.append(Job(f"schedules-first-{vloop.OUTCOME_NAMES[first]}", make_harness(maxr),
-                       [Arg("retries", 1, maxr), Arg("timeout", 0, 2), Arg("o0", first, first)] + [Arg(f"o{i}", 0, 5) for i in (1, 2, 3)],
+                       [Arg("retries", 1, maxr), Arg("timeout", 0, 2), Arg("o0", first, first)] + [Arg(f"o{i}", 0, 6) for i in (1, 2, 3)],
                        timeout=500 if quick else 1500, mode="E/concolic-window", functions=funcs, sample_every=11))
     return out
